@@ -43,8 +43,10 @@ def _c12_one(args):
             out = []
             if i % 2 == 0:
                 # split vs single
-                a = dict(inst, ops=[init, {'op': 'new_solver', 'sid': 1}, run(n1 + n2)])
-                b = dict(inst, ops=[init, {'op': 'new_solver', 'sid': 1}, run(n1), run(n2, units=rnd.random() < 0.7)])
+                n3 = rnd.randint(2, 6) if rnd.random() < 0.35 else 0          # now and then split in three
+                a = dict(inst, ops=[init, {'op': 'new_solver', 'sid': 1}, run(n1 + n2 + n3)])
+                b = dict(inst, ops=[init, {'op': 'new_solver', 'sid': 1}, run(n1), run(n2, units=rnd.random() < 0.7)] +
+                         ([run(n3, units=rnd.random() < 0.7)] if n3 else []))
                 units_rnd = rnd if rnd.random() < 0.3 else None
                 ta = solver_rec.execute(f's{i}a', copy.deepcopy(a), None if units_rnd is None else random.Random(i))
                 tb = solver_rec.execute(f's{i}b', copy.deepcopy(b), None if units_rnd is None else random.Random(i))
@@ -54,7 +56,7 @@ def _c12_one(args):
                 # an execution in which a call raised is outside the statement
                 if any(o.get('outcome', 'ok') != 'ok' for o in ta['ops'] + tb['ops']):
                     continue
-                return [ta, tb], pair, {'selfLocking': ta['selfLocking']}
+                return [ta, tb], [pair], {'selfLocking': ta['selfLocking'], 'src': tb['id'], 'parts': 3 if n3 else 2}
             else:
                 new_solver = rnd.random() < 0.5
                 two = rnd.random() < 0.5
@@ -65,14 +67,24 @@ def _c12_one(args):
                     ops.append({'op': 'new_solver', 'sid': 2})
                     sid = 2
                 ops += [dict(o, sid=sid) for o in copy.deepcopy(sched)]
+                third = rnd.random() < 0.35
+                if third:
+                    # a second reset and a third repetition, on either Solver (or a third one)
+                    ops += [{'op': 'reset'}, init]
+                    sid3 = rnd.choice([1, sid, 3])
+                    if sid3 == 3:
+                        ops.append({'op': 'new_solver', 'sid': 3})
+                    ops += [dict(o, sid=sid3) for o in copy.deepcopy(sched)]
                 t = solver_rec.execute(f'r{i}', dict(inst, ops=ops), rnd if rnd.random() < 0.3 else None)
-                if any(o.get('outcome', 'ok') != 'ok' for o in t['ops']) or len(t['epochs']) != 2:
+                if any(o.get('outcome', 'ok') != 'ok' for o in t['ops']) or len(t['epochs']) != (3 if third else 2):
                     continue
                 r0 = next(o for o in t['ops'] if o['op'] == 'run')
-                pair = {'id': f'rerun{i}', 'kind': 'rerun', 'mode': 'exact', 'A': t['epochs'][0], 'B': t['epochs'][1], 'outA': 'ok', 'outB': 'ok'}
-                meta = {'selfLocking': t['selfLocking'], 'new_solver': new_solver, 'pwm_before_first_run': r0['pwm_before'],
+                prs = [{'id': f'rerun{i}', 'kind': 'rerun', 'mode': 'exact', 'A': t['epochs'][0], 'B': t['epochs'][1], 'outA': 'ok', 'outB': 'ok'}]
+                if third:
+                    prs.append({'id': f'rerun{i}third', 'kind': 'rerun', 'mode': 'exact', 'A': t['epochs'][0], 'B': t['epochs'][2], 'outA': 'ok', 'outB': 'ok'})
+                meta = {'selfLocking': t['selfLocking'], 'new_solver': new_solver, 'pwm_before_first_run': r0['pwm_before'], 'src': t['id'], 'epochs': len(t['epochs']),
                         'first_recorded_pwm': t['epochs'][0]['hist'][0]['pwm'][0] if t['epochs'][0]['hist'][0].get('pwm') else 'null'}
-                return [t], pair, meta
+                return [t], prs, meta
         except ValueError:
             continue
     raise Machinery('could not generate a C12 case')
@@ -103,9 +115,9 @@ def _f4_demo():
     t = solver_rec.execute('rF4demo', dict(inst, ops=ops), None)
     r0 = next(o for o in t['ops'] if o['op'] == 'run')
     pair = {'id': 'rerunF4demo', 'kind': 'rerun', 'mode': 'exact', 'A': t['epochs'][0], 'B': t['epochs'][1], 'outA': 'ok', 'outB': 'ok'}
-    meta = {'selfLocking': t['selfLocking'], 'new_solver': True, 'pwm_before_first_run': r0['pwm_before'],
+    meta = {'selfLocking': t['selfLocking'], 'new_solver': True, 'pwm_before_first_run': r0['pwm_before'], 'src': t['id'],
             'first_recorded_pwm': t['epochs'][0]['hist'][0]['pwm'][0]}
-    return [t], pair, meta
+    return [t], [pair], meta
 
 
 def run_C12(tier, seed):
@@ -115,8 +127,8 @@ def run_C12(tier, seed):
         res = list(ex.map(_c12_one, [(seed, i) for i in range(n)], chunksize=2))
     res.append(_f4_demo())
     traces = [t for r in res for t in r[0]]
-    pairs = [r[1] for r in res]
-    metas = {r[1]['id']: r[2] for r in res}
+    pairs = [p for r in res for p in r[1]]
+    metas = {p['id']: r[2] for r in res for p in r[1]}
     add_mc(v, mc_cached('MC_Solver', 'MC_Solver_quick.cfg' if tier == 'quick' else 'MC_Solver.cfg'),
            'Solver.tla: every schedule of runs / continuations / resets / reruns on the same or a new Solver reproduces the reference trajectory (invariant C12_SplitAndRerun, guarded by the named deviation F4)')
     add_mc(v, mc_cached('MC_Solver', 'MC_Solver_F4.cfg'), 'the same without the F4 guard: TLC must find the design-level counterexample of the known finding', expect_violation='C12_Unguarded')
@@ -137,7 +149,7 @@ def run_C12(tier, seed):
     for pid, fails in pv.fails.items():
         if fails:
             p = pmeta[pid]
-            src = tmeta.get(('r' + pid[5:]) if p['kind'] == 'rerun' else ('s' + pid[5:] + 'b'))
+            src = tmeta.get(metas[pid].get('src'))
             v.violation({'clauses': fails[:12], 'pair': pid, 'kind': p['kind'], 'meta': metas[pid],
                          'elems': [e['kind'] for e in src['elems']] if src else None,
                          'ops': [{k: o[k] for k in o if k in ('op', 'sid', 'dt', 'T', 'dt_unit', 'T_unit', 'ctrl', 'outcome', 'first', 'last')} for o in src['ops']] if src else None,
@@ -146,8 +158,8 @@ def run_C12(tier, seed):
     for p in pairs:
         kinds[p['kind']] = kinds.get(p['kind'], 0) + 1
     v.rule = ('seeded random models (incl. self-locking chains that end a run held, controlled motors, time-dependent loads); even cases: one run of n1+n2 steps vs run n1 then '
-              'continue n2 with dt/T in other time units - histories must agree (Trace_Pair, close); odd cases: schedule (run [, continue]); reset; re-apply initial conditions; '
-              'repeat on the same or a new Solver - the two epochs must be identical sample by sample (exact); every execution is also validated by Trace_Solver')
+              'continue n2 [then n3] with dt/T in other time units - histories must agree (Trace_Pair, close); odd cases: schedule (run [, continue]); reset; re-apply initial conditions; '
+              'repeat on the same or a new Solver [; reset; repeat a third time] - every later epoch must be identical to the first sample by sample (exact); every execution is also validated by Trace_Solver')
     v.extra.update(pairs=kinds, single_executions=len(traces))
     v.sample({'pair': pairs[0]['id'], 'mode': pairs[0]['mode'], 'instants': len(pairs[0]['A']['time'])})
     v.sample({'pair': pairs[1]['id'], 'mode': pairs[1]['mode'], 'instants': len(pairs[1]['A']['time']), 'meta': metas[pairs[1]['id']]})
